@@ -44,6 +44,11 @@
 #include "main.h"
 #include "PLC.h"
 #include "vcommon.h"
+#include "entenc.h"
+#include "laplace.h"
+/* the coarse-energy probability model is `static` in quant_bands.c: include the file (this TU then provides all of
+   quant_bands.o's symbols, compiled from the same source, so the archive member is not pulled in) */
+#include "celt/quant_bands.c"
 
 /* ------------------------------------------------------------------ recorder */
 #define VMAXEV (1 << 20)
@@ -591,6 +596,51 @@ static long gen_packet(vrng *r, int sd, unsigned char *o, int big)
    return n;
 }
 
+/* Structured CELT-only packet (code 0) whose range-coded header is written with the library's own entropy coder: not
+   silence, optional post-filter, transient flag, intra / inter energy flag, then a CHOSEN coarse-energy delta for every
+   band and channel (large positive ones drive the decoded band energies far beyond what any encoder produces; with
+   inter prediction they accumulate over consecutive packets), then arbitrary bytes.  `LM` < 0: random frame size.
+   Returns the packet length; *dur48 = duration in 48 kHz samples. */
+static long gen_celt_hot(vrng *r, unsigned char *o, int LM, int intra, int qmode, int *dur48)
+{
+   static const int ENDB[4] = {13, 17, 19, 21};
+   int bwidx = vchance(r, 50) ? 3 : (int)vbelow(r, 4), stereo = vbelow(r, 2), C = 1 + stereo, end, i, c, payload, used;
+   ec_enc enc; const unsigned char *prob; int transient;
+   if (LM < 0) LM = vchance(r, 50) ? 3 : (int)vbelow(r, 4);
+   end = ENDB[bwidx];
+   o[0] = (unsigned char)(((16 + 4 * bwidx + LM) << 3) | (stereo << 2));
+   payload = 30 + 40 * C + (int)vbelow(r, 90);
+   ec_enc_init(&enc, o + 1, payload);
+   ec_enc_bit_logp(&enc, 0, 15);                                   /* silence = 0 */
+   if (vchance(r, 20)) {                                            /* post-filter */
+      int octave = vbelow(r, 6);
+      ec_enc_bit_logp(&enc, 1, 1); ec_enc_uint(&enc, octave, 6); ec_enc_bits(&enc, vbelow(r, 1u << (4 + octave)), 4 + octave);
+      ec_enc_bits(&enc, vbelow(r, 8), 3); ec_enc_icdf(&enc, vbelow(r, 3), tapset_icdf, 2);
+   } else ec_enc_bit_logp(&enc, 0, 1);
+   transient = vchance(r, 25);
+   if (LM > 0) ec_enc_bit_logp(&enc, transient, 3);
+   ec_enc_bit_logp(&enc, intra, 3);
+   prob = e_prob_model[LM][intra];
+   for (i = 0; i < end; i++) for (c = 0; c < C; c++) {
+      int pi = 2 * (i < 20 ? i : 20), qi;
+      if (payload * 8 - ec_tell(&enc) < 15 + 40) goto done;       /* keep clear of the low-budget symbol alphabet */
+      switch (qmode) {
+      case 0: qi = 12; break;                                      /* +72 dB per band */
+      case 1: qi = vrange(r, 6, 14); break;
+      case 2: qi = (i & 1) ? vrange(r, 8, 14) : -vrange(r, 0, 3); break;
+      case 3: qi = -vrange(r, 4, 12); break;
+      default: qi = vrange(r, -2, 9); break;
+      }
+      ec_laplace_encode(&enc, &qi, prob[pi] << 7, prob[pi + 1] << 6);
+   }
+done:
+   ec_enc_done(&enc);
+   used = (int)ec_range_bytes(&enc);
+   if (vchance(r, 60)) for (i = used; i < payload; i++) o[1 + i] = (unsigned char)vnext(r);
+   *dur48 = 120 << LM;
+   return 1 + payload;
+}
+
 static void mutate(vrng *r, unsigned char *b, long *n, long cap)
 {
    int m = vbelow(r, 100);
@@ -667,6 +717,17 @@ static void run_session(vrng *r, int steps)
          fs = vchance(r, 55) ? pfs : vchance(r, 50) ? pfs + (Fs / 400) * vrange(r, 1, 40) : pick_frame_size(r, Fs, pfs);
          do_call(st, fmt, nxt, n, 0, n, fs, 1, NULL);
          do_call(st, fmt, nxt, n, 0, n, Fs / 25 * 3, 0, NULL);
+      } else if (op < 95 && vchance(r, 35)) {
+         /* structured CELT packets with extreme band energies: one intra packet, a few inter packets that keep adding,
+            then concealment — through every entry point */
+         int dur48, LM = vchance(r, 60) ? 3 : (int)vbelow(r, 4), k, reps = 1 + vbelow(r, 5), qm = vbelow(r, 5), u = Fs / 400;
+         for (k = 0; k < reps; k++) {
+            int f2 = vbelow(r, 100); long n;
+            f2 = f2 < 15 ? FMT16 : f2 < 30 ? FMT24 : f2 < 90 ? FMTF : FMTN0;
+            n = gen_celt_hot(r, pkt, LM, k == 0 || vchance(r, 20), vchance(r, 70) ? qm : (int)vbelow(r, 5), &dur48);
+            do_call(st, f2, pkt, n, 0, n, vchance(r, 80) ? Fs / 25 * 3 : (u << LM), 0, NULL);
+         }
+         for (k = vbelow(r, 4); k > 0; k--) do_call(st, vchance(r, 75) ? FMTF : FMT16, pkt, 0, 1, 0, (u << LM) * (1 + vbelow(r, 3)), 0, NULL);
       } else if (op < 96) do_reset(st);
       else if (op < 99) do_gain(st, vchance(r, 80) ? vrange(r, -3000, 3000) : vchance(r, 50) ? 32768 : -32769);
       else { /* non-NULL pointer with a negative length */
@@ -755,6 +816,23 @@ static void run_ms_session(vrng *r, int steps)
       if (enc && vchance(r, 20)) opus_multistream_encoder_ctl(enc, OPUS_SET_BITRATE(vrange(r, 6000, 64000) * streams));
       n = penc ? opus_projection_encode_float(penc, in, N, pkt, sizeof pkt) : opus_multistream_encode_float(enc, in, N, pkt, sizeof pkt);
       if (n <= 0) continue;
+      if (vchance(r, 12)) {
+         /* every stream carries a structured CELT packet with extreme band energies (self-delimited framing for all but the
+            last stream), then concealment */
+         int LM = vchance(r, 60) ? 3 : (int)vbelow(r, 4), dur48, s2, reps = 1 + vbelow(r, 3), k2, qm = vbelow(r, 5);
+         for (k2 = 0; k2 < reps; k2++) {
+            long m = 0; static unsigned char one[600];
+            for (s2 = 0; s2 < streams; s2++) {
+               long l1 = gen_celt_hot(r, one, LM, k2 == 0, qm, &dur48);
+               pkt[m++] = one[0];
+               if (s2 != streams - 1) m += put_size(pkt + m, (int)(l1 - 1));
+               memcpy(pkt + m, one + 1, l1 - 1); m += l1 - 1;
+            }
+            do_ms_call(ms, pj, Fs, channels, streams, vchance(r, 70) ? FMTF : fmt, pkt, m, m, Fs / 25 * 3, 0);
+         }
+         for (k2 = vbelow(r, 3); k2 > 0; k2--) do_ms_call(ms, pj, Fs, channels, streams, FMTF, pkt, 0, 0, (Fs / 400) << LM, 0);
+         continue;
+      }
       if (op < 60) {
          int need, fs; mutate(r, pkt, &n, sizeof pkt);
          need = dur * (Fs / 400); fs = pick_frame_size(r, Fs, need); if (fs > Fs) fs = Fs;
